@@ -777,7 +777,8 @@ where
                     self.metrics.record_evm_error_conflict();
                     vpoint!(SCHED, "E_HeadCheck");
                     vemit!(SCHED, "E_HeadCheck", "tx" => txid,
-                        "com" => self.scheduler_ctx.committed_idx(), "invalid" => invalid_transaction);
+                        "com" => self.scheduler_ctx.committed_idx(), "invalid" => invalid_transaction,
+                        "head_at_start" => started_at_commit_head);
                     if started_at_commit_head {
                         if invalid_transaction {
                             self.abort(AbortReason::FallbackSequential);
